@@ -164,9 +164,20 @@ class MultipartDecoder:
                 # Update the search start position to be equal to the
                 # current buffer length (already searched) minus a
                 # safe buffer for part of the search target.
-                self._search_position = max(
+                search_position = max(
                     0, len(self.buffer) - len(self.boundary) - SEARCH_EXTRA_LENGTH
                 )
+                # The boundary may be followed by padding of any length
+                # before the line break. Don't skip a boundary whose line
+                # has not arrived completely.
+                last_boundary = self.buffer.rfind(
+                    b"--" + self.boundary, self._search_position
+                )
+
+                if last_boundary != -1:
+                    search_position = min(search_position, max(0, last_boundary - 2))
+
+                self._search_position = search_position
 
         elif self.state == State.PART:
             match = BLANK_LINE_RE.search(self.buffer, self._search_position)
